@@ -34,9 +34,9 @@ fcppt::intrusive::list<Type> &fcppt::intrusive::list<Type>::operator=(list &&_ot
 
   if (_other.empty())
   {
-    this->head_.next_ = &this->head_;
-
-    this->head_.prev_ = &this->head_;
+    // Take the head out of its ring first: the previous elements must not keep
+    // referring to it.
+    this->head_.unlink();
   }
   else
   {
